@@ -74,6 +74,10 @@ Inductive looped (x : ectx) (local_rid : N) (cid : option N) (attrs : list attr)
                 find_code CLUSTER_LIST attrs = Some a -> binary a = Some (cluster_list_bytes ids) -> In c ids ->
                 looped x local_rid cid attrs.
 
+(* the attributes an UPDATE that is not a loop leaves in the RIB *)
+Definition rx_attrs (x : ectx) (attrs : list attr) : list attr :=
+  if role_is_ibgp (x_role x) then inject_local_pref_if_absent attrs else attrs.
+
 (* ------------------------------------------------------------ what is sent, per receiver *)
 Definition absent (c : N) (attrs : list attr) : Prop := has_code c attrs = false.
 
